@@ -69,6 +69,8 @@ def run (cs : List Cmd) : Option Stack := runFrom init cs
 
 def Legal (cs : List Cmd) : Prop := (run cs).isSome
 
+instance (cs : List Cmd) : Decidable (Legal cs) := inferInstanceAs (Decidable ((run cs).isSome = true))
+
 /-- All live items, oldest first (outermost level first, order of addition inside a level). -/
 def items (s : Stack) : List Item := s.reverse.flatten
 
@@ -147,5 +149,7 @@ def Op.cmd : Op → Cmd
 def runOps (ops : List Op) : Option Stack := run (ops.map Op.cmd)
 
 def LegalOps (ops : List Op) : Prop := (runOps ops).isSome
+
+instance (ops : List Op) : Decidable (LegalOps ops) := inferInstanceAs (Decidable ((runOps ops).isSome = true))
 
 end PySMT.AssertStack
